@@ -14,10 +14,11 @@ from rules.simloop import SimLoop, SIMULATE
 from rules.wiring import wiring_rules
 
 UNDECIDED = [
-    "that calc_output of Xor / Override / user FuncBlock functions computes the documented value "
-    "function -- value level; decided only for Not (truthiness table), And/Or (function table), "
-    "Compare (threshold selection table and comparator, not the arithmetic), FuncBlock's unpack "
-    "switch and the agreement of declared and read input names",
+    "that user FuncBlock functions compute what their authors intend, Compare's arithmetic on "
+    "concrete numbers, Xor for more than 4 inputs -- value level; the library functions are decided "
+    "on finite abstract domains only: Not (truthiness), And/Or (function table), Xor (parity on "
+    "all vectors of 0..4 inputs), Override (equality pattern), Compare (threshold selection table "
+    "and comparator), FuncBlock's unpack switch, declared vs read input names",
     "enumeration of circuits and event sequences -- the idle-consistency follows from the "
     "work-list invariants R01.1-R01.8, which are the necessary conditions decided here",
 ]
@@ -64,6 +65,10 @@ def run(ck):
     R11 = ck.rule('R01.11', "Compare: the threshold is (low+high)/2 before the first output, "
                   "`high` while the output is False and `low` while it is True (truthiness domain of "
                   "the previous output, 3 cases); output = input >= threshold", 'truthiness domain', 5)
+
+    R12 = ck.rule('R01.12', "Override passes the input iff the override value equals null_value "
+                  "(complete on the equality pattern); Xor is the parity of the true inputs (all "
+                  "truthiness vectors of 0..4 inputs)", 'key-equality / truthiness domain', 3)
 
     sl = SimLoop(ck, R1)
     g, fi = sl.cfg, sl.fi
@@ -361,6 +366,43 @@ def run(ck):
             for n in gci.nodes if n.kind == 'stmt')
     ck.ob(R11, cin.fid, okr, "low/high stored as given; high < low refused" if okr else
           "Compare.__init__ swaps or does not validate its thresholds", cin, cin.node)
+
+    # Override: decided on the equality pattern of (override, null_value) -- 2 cases, complete
+    from sa.dictval import DictInterp
+    ovf = prog.func('blocklib.cblocks:Override.calc_output')
+    INP, OVR, NUL = 'INPUT', 'OVERRIDE', 'NULL'
+    for same in (True, False):
+        env = {'self._in.override': NUL if same else OVR, "self._in['override']": NUL if same else OVR,
+               'self._in.input': INP, "self._in['input']": INP, 'self._null': NUL}
+        got = DictInterp(R12, env).run(ovf.node.body)
+        ck.abstract_cases += 1
+        want = INP if same else OVR
+        ck.ob(R12, f"{ovf.fid} :: override {'==' if same else '!='} null_value", got == want,
+              f"documented: {'pass the input' if same else 'the override value'}; code yields {got}",
+              ovf, ovf.node)
+    # Xor: parity of the number of true inputs, evaluated for every truthiness vector of 0..4 inputs
+    xin = prog.func('blocklib.cblocks:Xor.__init__')
+    sup = [c for c in own_nodes(xin.node) if is_super_call(c, '__init__')]
+    fnode = kw(sup[0], 'func') if sup else None
+    ck.need(R12, isinstance(fnode, ast.Lambda) and len(fnode.args.args) == 1 and
+            is_const(kw(sup[0], 'unpack'), False),
+            "Xor: func= is not a one-argument lambda over the input group with unpack=False "
+            "(unrecognised idiom)")
+    import itertools
+    bad = None
+    n = 0
+    for arity in range(0, 5):
+        for vec in itertools.product((0, 1), repeat=arity):
+            got = DictInterp(R12, {fnode.args.args[0].arg: tuple(vec)}).ev(fnode.body)
+            n += 1
+            ck.abstract_cases += 1
+            if got is not (sum(vec) % 2 == 1) and bad is None:
+                bad = (vec, got)
+    ck.ob(R12, f"{xin.fid} :: parity", bad is None,
+          f"Xor = odd number of true inputs on all {n} truthiness vectors of 0..4 inputs (bounded "
+          f"arity, not a proof for every arity)" if bad is None else
+          f"Xor{bad[0]} yields {bad[1]}; documented: True iff an odd number of inputs is true",
+          xin, fnode)
 
     fb = prog.func('blocklib.cblocks:FuncBlock.calc_output')
     gb = ck.cfg(fb.fid, 'M0')
